@@ -418,6 +418,8 @@ func (s *sess) byContent(e *Event, r io.Reader, idx int) error {
 		return rerr
 	}
 	switch {
+	case strings.HasPrefix(line, "earlypanic"):
+		panic("backend panic before the message was read: " + line)
 	case early:
 		return &smtp.SMTPError{Code: 554, EnhancedCode: smtp.EnhancedCode{5, 6, 1}, Message: "early failure " + line}
 	case strings.HasPrefix(line, "rejectne"):
